@@ -2,19 +2,23 @@
 # usage: seedverify.sh <name> <srcdir with patch.diff+demo> <demo target dir in repo, '.' for root> <go test -run pattern> [checks to run, default: the property's own]
 # Confirms a seeded breaking change (compiles, suite passes, demonstration fails with / passes without),
 # then runs the verification checks against a scratch copy carrying the change. Nothing touches /repo's files.
+# The checks run from a snapshot copy of /verif taken at the start (so that the harness can be edited while
+# a long batch of seeded changes is being verified), with evidence / replays going to that copy.
 set -u
 NAME=$1; SRC=$2; DDIR=$3; PAT=$4; shift 4
 CHECKS=${@:-$(echo $NAME | cut -c1-3)}
 export GOFLAGS=-mod=mod GOPROXY=off GOSUMDB=off GOTOOLCHAIN=local
 S=/tmp/sv/$NAME
-rm -rf $S; git -C /repo worktree prune; mkdir -p /tmp/sv
+V=/tmp/sv/verif-$NAME
+rm -rf $S $V; git -C /repo worktree prune; mkdir -p /tmp/sv
 git -C /repo worktree add -q --detach $S HEAD || exit 2
+mkdir -p $V
+( cd /verif && tar cf - --exclude=./bin --exclude=./.git --exclude=./evidence --exclude=./replays --exclude=./seeded . ) | ( cd $V && tar xf - )
 cd $S
 git apply $SRC/patch.diff || { echo "PATCH DOES NOT APPLY"; exit 2; }
 go build ./... || { echo "DOES NOT COMPILE"; exit 2; }
 echo "--- suite with change"
 go test -vet=off -count=1 -timeout 25m ./... 2>&1 | grep -v "no test files" | grep -v "^ok" | head -5
-SUITE=$?
 DEMO=$(ls $SRC/demo_test.go 2>/dev/null)
 cp $DEMO $DDIR/zz_seed_demo_test.go
 echo "--- demo with change (expect FAIL)"
@@ -24,12 +28,12 @@ echo "--- demo without change (expect ok)"
 go test -vet=off -count=1 -run "$PAT" ./$DDIR/ 2>&1 | tail -3
 git apply $SRC/patch.diff
 rm -f $DDIR/zz_seed_demo_test.go
-cd /verif
+cd $V
 for c in $CHECKS; do
   echo "--- check $c quick against the seeded tree"
-  mkdir -p /tmp/sv/root-$NAME; cp /verif/known_findings.json /tmp/sv/root-$NAME/
-  VERIF_REPO=$S VERIF_ROOT=/tmp/sv/root-$NAME ./run.sh $c quick > /tmp/sv/$NAME.$c.quick.log 2>&1
+  VERIF_REPO=$S ./run.sh $c quick > /tmp/sv/$NAME.$c.quick.log 2>&1
   echo "exit=$? $(grep -c '^VIOLATION' /tmp/sv/$NAME.$c.quick.log) violations; $(grep 'key=' /tmp/sv/$NAME.$c.quick.log | sed 's/:.*//' | sort | uniq -c | head -5 | tr '\n' ' ')"
 done
+cd /verif
 git -C /repo worktree remove --force $S
-rm -rf /verif/bin/mod-* 
+rm -rf $V
